@@ -323,6 +323,9 @@ Definition js_header (q : jcons) : option (list str) := if j_has_header q then j
 
 Definition js_warnings (p : jprod) : warnings := mk_warnings (j_bom p) (j_fdl p) (j_finfo p).
 
+(* the order of get_warnings() in the JS port: defective line, BOM, field counts *)
+Definition js_warning_list (w : warnings) : list warning_item := w_def_items w ++ w_bom_items w ++ w_fld_items w.
+
 Definition js_finish (cs : cstate) (q : jcons) (p : jprod) : jresult :=
   match cs with
   | CDone (inl recs) => JOk recs (js_header q) (js_warnings p) (jNL p) (jNR p)
